@@ -304,7 +304,7 @@ def main(argv=None):
         return 2
 
     # 3. generated search, sharded
-    nshards = max(1, a.shards)
+    nshards = max(1, min(a.shards, getattr(mod, "MAX_SHARDS", a.shards)))
     jobs = [(prop_id, a.tier, seed, s, nshards) for s in range(nshards)]
     if nshards == 1:
         results = [shard_main(jobs[0])]
